@@ -6,6 +6,7 @@ import (
 	"sync"
 
 	"github.com/mutagen-io/mutagen/pkg/identifier"
+	"github.com/mutagen-io/mutagen/pkg/verif"
 )
 
 // registryLock is the lock on the global prompter registry.
@@ -75,6 +76,7 @@ func UnregisterPrompter(identifier string) {
 	}
 	delete(registry, identifier)
 	registryLock.Unlock()
+	verif.Yield("prompting.unregister.acquire")
 
 	// Get the prompter back and close the holder to let anyone else who has it
 	// know that they won't be getting the prompter from it.
@@ -96,6 +98,7 @@ func Message(identifier, message string) error {
 	registryLock.RLock()
 	holder, ok := registry[identifier]
 	registryLock.RUnlock()
+	verif.Yield("prompting.message.acquire")
 	if !ok {
 		return errors.New("prompter not found")
 	}
@@ -128,6 +131,7 @@ func Prompt(identifier, prompt string) (string, error) {
 	registryLock.RLock()
 	holder, ok := registry[identifier]
 	registryLock.RUnlock()
+	verif.Yield("prompting.prompt.acquire")
 	if !ok {
 		return "", errors.New("prompter not found")
 	}
